@@ -92,11 +92,13 @@ type Exec struct {
 	epochN      int
 	qn          int
 	usedMonitor bool
+	globalVal   map[string]Term
+	lockSnap    *State
 }
 
 func NewExec(p *Program, smtStr bool) *Exec {
 	return &Exec{prog: p, vc: NewVC(smtStr), obIndex: map[string]*Obligation{}, init0: map[string]Term{}, noteSet: map[string]bool{},
-		dropped: map[string]bool{}, externs: map[string]bool{}, inlined: map[string]bool{}, havocs: map[string]bool{}, maxInl: 6, safety: true}
+		dropped: map[string]bool{}, externs: map[string]bool{}, inlined: map[string]bool{}, havocs: map[string]bool{}, maxInl: 6, safety: true, globalVal: map[string]Term{}}
 }
 
 func (e *Exec) note(format string, a ...any) {
